@@ -15,10 +15,15 @@ SRC = os.environ.get("VFW_REPO", "/repo").rstrip("/") + "/src/conductor"
 
 
 class AbortInjector:
-    def __init__(self, k=None, exc_factory=None, start_after="register_signal_handlers", target=None):
+    def __init__(self, k=None, exc_factory=None, start_after="register_signal_handlers", target=None, granularity="line"):
         """k: fire at the k-th armed line event.  target=(file, line, nth): fire at the nth time that line is reached
         (robust against per-process differences in event numbering; used by replays)."""
         self.k = k
+        # "line": every executed line of Conductor code.  "evalbreaker": the instructions at which CPython 3.12 actually
+        # runs Python-level signal handlers in pure-Python code - RESUME (function entry) and JUMP_BACKWARD (loop back-edge);
+        # an exception raised there is looked up in the exception table with that instruction's offset, exactly as for a
+        # real handler.
+        self.granularity = granularity
         self.target = tuple(target) if target is not None else None
         self.per_line = {}
         self.nth = None
@@ -41,6 +46,12 @@ class AbortInjector:
 
     def _global(self, frame, event, arg):
         if frame.f_code.co_filename.startswith(SRC):
+            if self.granularity == "evalbreaker":
+                frame.f_trace_opcodes = True
+                frame.f_trace_lines = False
+                if self.armed and event == "call":
+                    # the RESUME of this frame (a "call" event precedes the first opcode event)
+                    pass
             return self._local
         return None
 
@@ -49,14 +60,24 @@ class AbortInjector:
             if not self.armed and frame.f_code.co_name == self.start_after:
                 self.armed = True
             return self._local
-        if event != "line" or not self.armed:
+        if not self.armed:
             return self._local
+        if self.granularity == "evalbreaker":
+            if event != "opcode":
+                return self._local
+            op = frame.f_code.co_code[frame.f_lasti]
+            if op not in _EVAL_BREAKER_OPS:
+                return self._local
+            key = (frame.f_code.co_filename[len(SRC) + 1:], frame.f_lineno, _OPNAME[op], frame.f_lasti)
+        else:
+            if event != "line":
+                return self._local
+            key = (frame.f_code.co_filename[len(SRC) + 1:], frame.f_lineno)
         n = self.count
         self.count += 1
-        key = (frame.f_code.co_filename[len(SRC) + 1:], frame.f_lineno)
         occ = self.per_line.get(key, 0)
         self.per_line[key] = occ + 1
-        hit = (self.k is not None and n == self.k) or (self.target is not None and key == self.target[:2] and occ == self.target[2])
+        hit = (self.k is not None and n == self.k) or (self.target is not None and key == self.target[:-1] and occ == self.target[-1])
         if hit and self.fired_at is None:
             self.nth = occ
             f = frame
@@ -66,12 +87,18 @@ class AbortInjector:
                     self.fired_at = ("finalizer", frame.f_code.co_filename, frame.f_lineno)
                     return self._local
                 f = f.f_back
-            self.fired_at = (frame.f_code.co_name, frame.f_code.co_filename[len(SRC) + 1:], frame.f_lineno)
+            self.fired_at = (frame.f_code.co_name, frame.f_code.co_filename[len(SRC) + 1:], frame.f_lineno) + tuple(key[2:])
+            self.fired_key = key
             if self.on_fire is not None:
                 self.on_fire(self)
             sys.settrace(None)
             raise self.exc_factory()
         return self._local
+
+
+import dis as _dis
+_OPNAME = _dis.opname
+_EVAL_BREAKER_OPS = {_dis.opmap[n] for n in ("RESUME", "JUMP_BACKWARD") if n in _dis.opmap}
 
 
 class CrashSnapshotter:
